@@ -1,5 +1,6 @@
 import MW.Bytes.Bech32Lemmas
 import MW.Staking.Effects
+import MW.Staking.Interface
 /-!
 # C09 — Cross-chain sender authentication follows the ibc-hooks derivation
 
@@ -125,5 +126,15 @@ theorem C09_no_impersonation (c₁ c₂ s₁ s₂ p acct : String)
 
 /-- non-vacuity of the hypotheses of `C09_no_impersonation` -/
 example : channelOk "channel-123" = true ∧ channelOk "channel-7" = true := by decide
+
+/-- the statements of this file quantify over every message the staking contract accepts: the `ExecuteMsg` the source
+declares (table regenerated from /repo's `msg.rs` on every run) has exactly the variants, fields and types of the
+model's `ExecMsg`, and the contract exports exactly the modelled entry points.  A message or entry point added to the
+source — which no generated history would exercise — breaks this theorem -/
+theorem messages_are_the_modelled_ones :
+    MW.Generated.Interface.staking_execute = MW.Interface.model_staking_execute
+    ∧ (∀ m : MW.Staking.ExecMsg, MW.Interface.execTag m ∈ MW.Interface.names MW.Generated.Interface.staking_execute)
+    ∧ MW.Generated.Interface.staking_entry_points = ["execute", "instantiate", "migrate", "query", "reply", "sudo"] :=
+  ⟨MW.Interface.staking_execute_eq, MW.Interface.staking_execute_covered.2, MW.Interface.staking_entry_points_eq⟩
 
 end MW.Props.C09
